@@ -3,12 +3,15 @@ package failsafehttp
 import (
 	"bytes"
 	"context"
+	"errors"
 	"fmt"
 	"io"
 	"net/http"
+	"sync"
 
 	"github.com/failsafe-go/failsafe-go"
 	"github.com/failsafe-go/failsafe-go/internal/util"
+	"github.com/failsafe-go/failsafe-go/retrypolicy"
 )
 
 type roundTripper struct {
@@ -71,7 +74,11 @@ func doRequest(request *http.Request, executor failsafe.Executor[*http.Response]
 		return nil, err
 	}
 
-	return executor.GetWithExecution(func(exec failsafe.Execution[*http.Response]) (*http.Response, error) {
+	// Track the responses that attempts obtain, so that those which are not returned can be released
+	var mtx sync.Mutex
+	var responses []*http.Response
+
+	response, err := executor.GetWithExecution(func(exec failsafe.Execution[*http.Response]) (*http.Response, error) {
 		// Release the previous attempt's response, if any, since it will not be returned
 		if last := exec.LastResult(); last != nil && last.Body != nil {
 			last.Body.Close()
@@ -101,8 +108,24 @@ func doRequest(request *http.Request, executor failsafe.Executor[*http.Response]
 			return resp, err
 		}
 		resp.Body = &cancelingBody{ReadCloser: resp.Body, cancel: cancel}
+		mtx.Lock()
+		responses = append(responses, resp)
+		mtx.Unlock()
 		return resp, nil
 	})
+
+	// Release any responses that are not being returned, such as when a retry was rejected by an inner policy before the
+	// previous response could be released
+	var exceeded retrypolicy.ExceededError
+	errors.As(err, &exceeded)
+	mtx.Lock()
+	for _, resp := range responses {
+		if resp != response && any(resp) != exceeded.LastResult {
+			resp.Body.Close()
+		}
+	}
+	mtx.Unlock()
+	return response, err
 }
 
 // cancelingBody cancels a request's merged context when the response body is closed.
